@@ -82,7 +82,8 @@ inductive BfsG (defs : K → St → St × Goal St K) : Goal St K → Prop where
   | alt {g r} : BfsG defs g → BfsG defs r → BfsG defs (.alt g r)
   | fresh {g} : BfsG defs g → BfsG defs (.fresh g)
   | anyo {g} : BfsG defs g → BfsG defs (.anyo g)
-  | call {k} : (∀ a, BfsG defs (defs k a).2) → BfsG defs (.call k)
+  /-- a relation call: the body is covered by `BfsDefs` (so recursive relations are included) -/
+  | call {k} : BfsG defs (.call k)
 
 /-- goals built from depth-first operators only -/
 inductive DfsG (defs : K → St → St × Goal St K) : Goal St K → Prop where
@@ -94,7 +95,13 @@ inductive DfsG (defs : K → St → St × Goal St K) : Goal St K → Prop where
   | disjD {g1 g2} : DfsG defs g1 → DfsG defs g2 → DfsG defs (.disjD g1 g2)
   | altD {g r} : DfsG defs g → DfsG defs r → DfsG defs (.altD g r)
   | fresh {g} : DfsG defs g → DfsG defs (.fresh g)
-  | call {k} : (∀ a, DfsG defs (defs k a).2) → DfsG defs (.call k)
+  | call {k} : DfsG defs (.call k)
+
+/-- every relation body of the program is built from interleaving operators (bodies may call relations,
+    themselves included: the predicate on goals does not unfold calls) -/
+def BfsDefs (defs : K → St → St × Goal St K) : Prop := ∀ k a, BfsG defs (defs k a).2
+/-- every relation body of the program is built from depth-first operators -/
+def DfsDefs (defs : K → St → St × Goal St K) : Prop := ∀ k a, DfsG defs (defs k a).2
 
 section
 variable (defs : K → St → St × Goal St K)
